@@ -326,7 +326,7 @@ func c06(c *ctx) {
 		}
 	}
 	cfgs := []config{{name: "memo", v: vPlain, memo: true}, {name: "nomemo", v: vPlain}}
-	f := &family{c: c, tag: "c06", configs: cfgs, noexec: true, history: []string{"memo"}}
+	f := &family{c: c, tag: "c06", configs: cfgs, noexec: true, history: []string{"memo"}, retries: []string{"memo", "nomemo"}, retryEqual: [2]string{"memo", "nomemo"}}
 	f.judge = func(cs *gcase, e entry, it *ref.Interp, refOK bool, refEnd int, res map[string]*corpus.Res) {
 		covAccumulate(c, it)
 		id := report.Hash(cs.text, fmt.Sprint(e.rule), e.input)
@@ -398,9 +398,10 @@ func c06(c *ctx) {
 		}
 	}
 	f.run(cases)
-	requireCov(c, "memo_hits_observed", "memo_hits_in_accepting_parse", "memo_hits_in_rejecting_parse", "cases_with_potential_memo_hits_no_probes")
+	requireCov(c, "retry_attempts_compared_across_configs", "memo_hits_observed", "memo_hits_in_accepting_parse", "memo_hits_in_rejecting_parse", "cases_with_potential_memo_hits_no_probes")
 	c.run.Rule = "cases: revisit-heavy grammars (alternatives A B / A C / A, lookahead followed by consumption &A A, !A ... / A, rules re-entered at the same offset from different callers; plus grammars of 270-330 keyword rules tried at the same offsets, so that rule numbers above 255 are memoised); the same compiled parser is run with Init() and Init(DisableMemoize()). Half of the grammars start every rule body with an observer predicate that logs (rule, offset) and always succeeds; the other half has no predicate at all. " +
 		"Oracle: equal verdict, tokens and (on failure) error token, both equal to the reference; observer log without memo = the reference's rule entries, with memo = their first occurrences (each (rule, offset) evaluated exactly once). " +
+		"Entry rules tried in turn on one instance without Reset (the memo table and the furthest token live on): every attempt — error token and message of the failed ones, tokens of the successful one — must be the same with and without memoisation. " +
 		"distinct_nontrivial = distinct (grammar, entry, input) on which at least one memo hit was observed through the log (or, without probes, the reference re-entered a rule at the same offset)."
 	c.run.Assume("predicates used are observers (always true) or pure functions of the offset")
 }
